@@ -14,16 +14,17 @@ package gen
 
 //@ iface Field.Write
 //@   requires metaOK(meta) && external(w)
-//@   modifies meta, HA(meta.rowGroups), heap("sch.ColumnMetaData"), heap("map[string]sch.ColumnChunk"), wfault, relArr
+//@   modifies meta, HA(meta.rowGroups), heap("sch.ColumnMetaData"), heap("map[string]sch.ColumnChunk"), wfault, snkPos, relArr
 //@   ensures metaOK(meta) && meta.rowGroups == old(meta.rowGroups)
 //@   ensures[C09] err == nil ==> (wfault ==> old(wfault))
+//@   ensures[C06] #meta.rowGroups >= 1 && err == nil ==> pageWritten(meta)
 
 //@ iface Field.Schema
 //@   modifies nothing
 
 //@ iface Field.Add
 //@   free-requires fieldInv(self)
-//@   modifies allheaps
+//@   modifies allexcept("parquet.Metadata", "[]parquet.RowGroup", "GEN.ParquetWriter")
 
 //@ template T in Int32 Int64 Uint32 Uint64 Float32 Float64 String
 //@ loop (*{T}Field).Write#1
@@ -50,44 +51,67 @@ package gen
 //@   requires arg0 != nil
 //@   requires fnid(self) == fnidOf("GEN.begin") ==> external(arg0.w)
 //@   free-requires live(par1)
-//@   modifies arg0, wfault
+//@   modifies arg0, wfault, snkPos
 //@   ensures arg0.w == old(arg0.w)
 //@   ensures fnid(self) != fnidOf("GEN.begin") ==> wfault == old(wfault)
 //@   ensures fnid(self) != fnidOf("GEN.withMeta$1") ==> arg0.meta == old(arg0.meta)
 //@   ensures pageOpt(self) ==> res == nil
 //@   ensures[C09] res == nil ==> (wfault ==> old(wfault))
+//@   ensures[C06] fnid(self) == fnidOf("GEN.withMeta$1") ==> arg0.meta == cloArg(self)
+//@   ensures[C06] fnid(self) == fnidOf("GEN.MaxPageSize$1") ==> arg0.max == cloArg(self)
+//@   ensures[C06] fnid(self) != fnidOf("GEN.MaxPageSize$1") ==> arg0.max == old(arg0.max)
+//@   ensures[C06] arg0.len == old(arg0.len) && arg0.child == old(arg0.child)
+//@   ensures[C06] fnid(self) != fnidOf("GEN.begin") ==> snkPos == old(snkPos)
 
+// C06. The open row group is the last one; it has NumRows 0 until its first
+// page is written. rootOK is the invariant of the writer the user holds.
+//@ pred rootOK(p) := p.max >= 1 && p.len >= 0 && #p.fields >= 1 && mInv(p.meta) && lastRows(p.meta) == 0 && (p.len == 0 <==> p.meta.rowGroupDocs == 0)
+//@ pred groupsSame(m) := #m.rowGroups == old(#m.rowGroups) && (forall k in 0..#m.rowGroups: m.rowGroups[k].rowGroup.NumRows == old(m.rowGroups[k].rowGroup.NumRows))
+// W0: nothing pending — the call is inert (no byte, no accounting change).
+// W1: the pending batch becomes exactly one closed row group holding as many
+// rows as were added since the previous group was closed; older groups keep theirs.
 //@ func (*ParquetWriter).Write
 //@   verify[C13]
+//@   verify[C06]
 //@   requires writerOK(p)
-//@   modifies p, p.meta, HA(p.meta.rowGroups), heap("sch.ColumnMetaData"), heap("map[string]sch.ColumnChunk"), wfault, relArr
+//@   modifies p, p.meta, HA(p.meta.rowGroups), heap("sch.ColumnMetaData"), heap("map[string]sch.ColumnChunk"), wfault, snkPos, relArr
 //@   ensures[C09] err == nil ==> (wfault ==> old(wfault))
+//@   ensures[C06] old(rootOK(p)) && old(p.meta.rowGroupDocs) == 0 ==> err == nil && snkPos == old(snkPos) && groupsSame(p.meta) && p.meta.rowGroupDocs == 0 && p.meta.docs == old(p.meta.docs) && sameheap("sch.ColumnMetaData") && sameheap("map[string]sch.ColumnChunk") && sameheap("[]parquet.RowGroup") && rootOK(p)
+//@   ensures[C06] old(rootOK(p)) && old(p.meta.rowGroupDocs) != 0 && err == nil ==> #p.meta.rowGroups == old(#p.meta.rowGroups) + 1 && p.meta.rowGroups[#p.meta.rowGroups - 2].rowGroup.NumRows == old(p.meta.rowGroupDocs) && (forall k in 0..old(#p.meta.rowGroups) - 1: p.meta.rowGroups[k].rowGroup.NumRows == old(p.meta.rowGroups[k].rowGroup.NumRows)) && p.meta.docs == old(p.meta.docs) && rootOK(p)
+//@   ensures[C06] p.max == old(p.max) && p.meta == old(p.meta) && p.w == old(p.w)
 //@ loop (*ParquetWriter).Write#1
-//@   modifies p.meta, HA(p.meta.rowGroups), heap("sch.ColumnMetaData"), heap("map[string]sch.ColumnChunk"), wfault, relArr
-//@   invariant metaOK(p.meta) && (wfault ==> old(wfault)) && p.meta.rowGroups == old(p.meta.rowGroups)
+//@   modifies p.meta, HA(p.meta.rowGroups), heap("sch.ColumnMetaData"), heap("map[string]sch.ColumnChunk"), wfault, snkPos, relArr
+//@   invariant metaOK(p.meta) && (wfault ==> old(wfault)) && p.meta.rowGroups == old(p.meta.rowGroups) && 0 <= rangeindex + 1
+//@   invariant[C06] old(#p.meta.rowGroups) >= 1 ==> p.meta.rowGroupDocs == old(p.meta.rowGroupDocs) && p.meta.docs == old(p.meta.docs) && closedSame(p.meta) && (rangeindex + 1 >= 1 ==> lastRows(p.meta) == p.meta.rowGroupDocs)
 //@ loop (*ParquetWriter).Write#2
-//@   modifies p.meta, HA(p.meta.rowGroups), heap("sch.ColumnMetaData"), heap("map[string]sch.ColumnChunk"), wfault, relArr
-//@   invariant metaOK(p.meta) && (wfault ==> old(wfault)) && p.meta.rowGroups == old(p.meta.rowGroups)
+//@   modifies p.meta, HA(p.meta.rowGroups), heap("sch.ColumnMetaData"), heap("map[string]sch.ColumnChunk"), wfault, snkPos, relArr
+//@   invariant metaOK(p.meta) && (wfault ==> old(wfault)) && p.meta.rowGroups == old(p.meta.rowGroups) && 0 <= rangeindex$1 + 1
+//@   invariant[C06] old(#p.meta.rowGroups) >= 1 ==> p.meta.rowGroupDocs == old(p.meta.rowGroupDocs) && p.meta.docs == old(p.meta.docs) && closedSame(p.meta) && lastRows(p.meta) == p.meta.rowGroupDocs
 //@ loop (*ParquetWriter).Write#3
 //@   modifies HA(schema)
 //@   invariant freshsince(schema) && metaOK(p.meta) && (wfault ==> old(wfault)) && #schema == #p.fields
 
+// The footer's row count is the sum of the row counts of the row groups it
+// lists, and it lists exactly the groups that hold rows.
 //@ func (*ParquetWriter).Close
 //@   verify[C13]
+//@   verify[C06]
 //@   requires writerOK(p)
 //@   free-requires live(par1)
-//@   modifies heap("sch.ColumnMetaData"), heap("sch.SchemaElement"), wfault
+//@   modifies heap("sch.ColumnMetaData"), heap("sch.SchemaElement"), wfault, snkPos, footRows, footGroups
 //@   ensures[C09] err == nil ==> (wfault ==> old(wfault))
+//@   ensures[C06] err == nil ==> footRows == rowsSum(HA(p.meta.rowGroups), off(p.meta.rowGroups), #p.meta.rowGroups) && footGroups == groupsKept(HA(p.meta.rowGroups), off(p.meta.rowGroups), #p.meta.rowGroups)
 
 //@ func begin
 //@   requires p != nil && external(p.w)
 //@   free-requires live(par1)
-//@   modifies wfault
+//@   modifies wfault, snkPos
 //@   ensures[C09] err == nil ==> (wfault ==> old(wfault))
 
 //@ func Fields
 //@   modifies nothing
 //@   ensures freshsince(res)
+//@   ensures[C06] #res >= 1
 
 //@ func fieldCompression
 //@   modifies nothing
@@ -128,40 +152,72 @@ package gen
 //@   verify[C13]
 //@   requires external(w)
 //@   requires forall k in 0..#opts: fnid(opts[k]) != fnidOf("GEN.withMeta$1")
-//@   modifies HA(opts), wfault
+//@   modifies HA(opts), wfault, snkPos
 //@   ensures err == nil ==> writerOK(res0)
 //@   ensures[C09] err == nil ==> (wfault ==> old(wfault))
+//@   ensures[C06] err == nil && res0.max >= 1 ==> rootOK(res0) && #res0.meta.rowGroups == 1 && res0.meta.docs == 0
+//@   ensures[C06] err == nil ==> res0.child == nil && (chainInv(old(allocbound())) ==> chainInv(allocbound()))
+
+// index of the last option with function identity id, or -1
+//@ recfn[4] lastOpt(A array<int>, off int, n int, id int) int := ite(n <= 0, 0 - 1, ite(fnid(A[off + n - 1]) == id, n - 1, lastOpt(A, off, n - 1, id)))
+// C06: overflow pages form a chain of writers that share the root's metadata and page size.
+//@ pred chainAt(c) := c.child != nil ==> c.child.meta == c.meta && c.child.max == c.max
+//@ pred chainInv(n) := forall r in 1..n: chainAt(cast("*GEN.ParquetWriter", r))
+//@ pred nodeKept(c) := c.len >= old(c.len) && c.max == old(c.max) && c.meta == old(c.meta) && c.w == old(c.w)
+//@ pred optMeta(opts, n) := lastOpt(HA(opts), off(opts), n, fnidOf("GEN.withMeta$1"))
+//@ pred optMax(opts, n) := lastOpt(HA(opts), off(opts), n, fnidOf("GEN.MaxPageSize$1"))
 
 //@ func newParquetWriter
 //@   requires external(w) || (forall k in 0..#opts: fnid(opts[k]) != fnidOf("GEN.begin"))
-//@   modifies wfault
+//@   modifies wfault, snkPos
+//@   ensures[C06] err == nil ==> res0.len == 0 && res0.child == nil && #res0.fields >= 1 && res0.meta != nil
+//@   ensures[C06] err == nil && optMeta(opts, #opts) >= 0 ==> res0.meta == cloArg(opts[optMeta(opts, #opts)])
+//@   ensures[C06] err == nil && optMeta(opts, #opts) < 0 ==> #res0.meta.rowGroups == 1 && lastRows(res0.meta) == 0 && res0.meta.rowGroupDocs == 0 && res0.meta.docs == 0
+//@   ensures[C06] err == nil && optMax(opts, #opts) >= 0 ==> res0.max == cloArg(opts[optMax(opts, #opts)])
+//@   ensures[C06] err == nil && optMax(opts, #opts) < 0 ==> res0.max == 1000
+//@   ensures[C06] (forall k in 0..#opts: fnid(opts[k]) != fnidOf("GEN.begin")) ==> snkPos == old(snkPos)
+//@   ensures[C06] chainInv(old(allocbound())) ==> chainInv(allocbound())
 //@   ensures err == nil ==> res0 != nil && freshsince(res0) && res0.w == w
 //@   ensures (forall k in 0..#opts: fnid(opts[k]) != fnidOf("GEN.withMeta$1")) && err == nil ==> metaOK(res0.meta) && freshsince(res0.meta)
 //@   ensures (forall k in 0..#opts: fnid(opts[k]) != fnidOf("GEN.begin")) ==> wfault == old(wfault)
 //@   ensures (forall k in 0..#opts: pageOpt(opts[k])) ==> err == nil
 //@   ensures[C09] err == nil ==> (wfault ==> old(wfault))
 //@ loop newParquetWriter#1
-//@   modifies p, wfault
+//@   modifies p, wfault, snkPos
 //@   invariant p.w == w && (wfault ==> old(wfault)) && 0 <= rangeindex + 1 && rangeindex + 1 <= #opts
 //@   invariant (forall k in 0..rangeindex+1: fnid(opts[k]) != fnidOf("GEN.withMeta$1")) ==> p.meta == nil
 //@   invariant (forall k in 0..rangeindex+1: fnid(opts[k]) != fnidOf("GEN.begin")) ==> wfault == old(wfault)
+//@   invariant[C06] (forall k in 0..rangeindex+1: fnid(opts[k]) != fnidOf("GEN.begin")) ==> snkPos == old(snkPos)
+//@   invariant[C06] p.len == 0 && p.child == nil && freshsince(p)
+//@   invariant[C06] optMeta(opts, rangeindex + 1) >= 0 ==> p.meta == cloArg(opts[optMeta(opts, rangeindex + 1)])
+//@   invariant[C06] optMeta(opts, rangeindex + 1) < 0 ==> p.meta == nil
+//@   invariant[C06] optMax(opts, rangeindex + 1) >= 0 ==> p.max == cloArg(opts[optMax(opts, rangeindex + 1)])
+//@   invariant[C06] optMax(opts, rangeindex + 1) < 0 ==> p.max == 1000
 //@ loop newParquetWriter#2
 //@   modifies HA(schema)
 //@   invariant freshsince(schema) && #schema == #ff
 
+// Add counts one row in the open row group (whichever writer of the chain
+// stores it), touches no closed group and writes nothing.
 //@ func (*ParquetWriter).Add
 //@   verify[C13]
-//@   modifies allheaps
+//@   verify[C06]
+//@   requires[C06] p != nil && p.meta != nil && chainInv(allocbound())
+//@   modifies allexcept("[]parquet.RowGroup")
 //@   ensures[C09] wfault == old(wfault)
+//@   ensures[C06] p.meta.docs == old(p.meta.docs) + 1 && p.meta.rowGroupDocs == old(p.meta.rowGroupDocs) + 1 && p.meta.rowGroups == old(p.meta.rowGroups) && p.meta.ts == old(p.meta.ts)
+//@   ensures[C06] chainInv(allocbound()) && (forall r in 1..old(allocbound()): nodeKept(cast("*GEN.ParquetWriter", r)))
+//@   ensures[C06] old(rootOK(p)) ==> rootOK(p)
 //@ loop (*ParquetWriter).Add#1
 //@   invariant wfault == old(wfault)
+//@   invariant[C06] p.meta.docs == old(p.meta.docs) + 1 && p.meta.rowGroupDocs == old(p.meta.rowGroupDocs) + 1 && p.meta.rowGroups == old(p.meta.rowGroups) && p.meta.ts == old(p.meta.ts) && sameheap("GEN.ParquetWriter")
 
 //@ func MaxPageSize
 //@   modifies nothing
-//@   ensures fnid(res) == fnidOf("GEN.MaxPageSize$1")
+//@   ensures fnid(res) == fnidOf("GEN.MaxPageSize$1") && cloArg(res) == m
 //@ func withMeta
 //@   modifies nothing
-//@   ensures fnid(res) == fnidOf("GEN.withMeta$1")
+//@   ensures fnid(res) == fnidOf("GEN.withMeta$1") && cloArg(res) == m
 //@ func withCompression
 //@   modifies nothing
 //@   ensures fnid(res) == fnidOf("GEN.withCompression$1")
